@@ -207,7 +207,7 @@ def r114(ctx, fx):
 
 def r115(ctx, fx, cg):
     from . import reentry
-    rid = ctx.rule("R11.5", "state across nested constructs (A8): the code generator re-enters emit_token for macro / loop / scope / import bodies; no field of the "
+    rid = ctx.rule("R11.5", "state across nested constructs (A9): the code generator re-enters emit_token for macro / loop / scope / import bodies; no field of the "
                    "source map (or of anything else in the context) that one activation overwrites before a nested activation is read after it, unless the "
                    "body restores the saved value on every path — a single `mark`/cursor shared by nested macro invocations attributes the outer macro's "
                    "bytes to the wrong statement")
